@@ -17,7 +17,7 @@ DATATYPES = [
     XSD + "double", XSD + "boolean", "http://ex.org/dt/other", "dtnosep", XSD + "anyURI",
 ]
 LANGS = ["en", "en-GB", "de", "pl", "x-private", "EN-us"]
-LEXES = ["", "a", "hello world", "42", "2020-01-01", "zażółć", "\x00", "true", "1.5", "x" * 60, "\n\t\"'\\", "0", "false", "0.0"]
+LEXES = ["", "a", "hello world", "42", "2020-01-01", "zażółć", "\x00", "true", "1.5", "x" * 60, "\n\t\"'\\", "0", "false", "0.0", "01", "1E+3"]
 LABELS = ["b0", "b1", "", "x", "ü", "N" * 30, "b 2"]
 
 iri_pool = st.builds(lambda p, l: ["iri", p + l], st.sampled_from(PREFIXES), st.sampled_from(LOCALS))
